@@ -312,7 +312,7 @@ Proof. split; [apply prime_by_trial; [lia|vm_compute; reflexivity]|vm_compute; r
 
 Example counters_balance_history_nonvacuous :
   let ops := [ OPolicy 0 KRr MConn 0; OAdd 0 0 0 None None false; OSelectConn 0 1; OConnect 0 1;
-               ORemove 0 0; OAdd 0 0 0 None None false; OSelectConn 0 1; ODec 0; OClosing 0; ODec 0 ] in
+               ORemove 0 0 0; OAdd 0 0 0 None None false; OSelectConn 0 1; ODec 0; OClosing 0; ODec 0 ] in
   disciplined_h init (fun _ => 0) ops /\
   let s := fst (run_g init (fun _ => 0) ops) in
   b_conns (hget (s_heap s) 0) = 0 /\ b_status (hget (s_heap s) 0) = Closed /\
@@ -410,19 +410,70 @@ Proof.
 Qed.
 
 (** 11. A backend that is gone is never marked: after the removal of the
-    backends at an address, a verdict for a probe towards that address changes
-    nothing, whatever the verdict; a verdict never touches a backend object
+    backend (id, address), no verdict — for a probe towards any address, with
+    any outcome — changes the removed backend object (a probe that was in
+    flight for it reports on the address: it reaches whoever is listed there
+    now, never the object removed); a verdict never touches a backend object
     that is not in the cluster's list; and removing the cluster's configuration
     drops its probes. *)
 Theorem removed_backend_never_marked :
-  forall (ops : list hop) (c : nat) (a : N) (v : bool) (cf : hcfg),
-    let s := fst (hrun (ops ++ [HOp (ORemove c a)])) in
-    find_backend s c a = None /\ record_result s c a v cf = s.
+  forall (ops : list hop) (c : nat) (id a a' : N) (v : bool) (cf : hcfg) (hd : nat),
+    let s0 := fst (hrun ops) in
+    let s := fst (hrun (ops ++ [HOp (ORemove c id a)])) in
+    (hd < length (s_heap s0))%nat ->
+    b_id (hget (s_heap s0) hd) = id -> b_addr (hget (s_heap s0) hd) = a ->
+    ~ In hd (c_list (cget s c)) /\
+    hget (s_heap (record_result s c a' v cf)) hd = hget (s_heap s0) hd.
 Proof.
-  intros ops c a v cf. unfold hrun. rewrite fold_left_app. cbn [fold_left].
+  intros ops c id a a' v cf hd. unfold hrun. rewrite fold_left_app. cbn [fold_left].
   destruct (fold_left hstep ops (init, hc_init)) as [s0 h0]. cbn [hstep fst apply_op].
-  split; [apply removed_not_found|]. apply record_result_gone, removed_not_found.
+  intros L I A. pose proof (removed_not_listed s0 c id a hd I A) as NL. split; [exact NL|].
+  rewrite record_result_not_listed; [reflexivity|exact L|exact NL].
 Qed.
+
+(** 11b. RemoveBackend removes exactly the backend it names.  The identity of
+    a backend is (id, address), as for [add_backend] and the configuration
+    state: whatever the history, in the cluster named the entries that stay
+    are exactly those that are not that backend, in their order (another
+    backend of the cluster on the same address stays, and so does one with
+    the same id elsewhere); at most one entry goes; the other cluster's list
+    and every backend object (health, back-off, counters) are untouched — so
+    a sibling that could be selected before can be selected after. *)
+Theorem remove_backend_removes_exactly_that_one :
+  forall (ops : list hop) (c : nat) (id a : N),
+    let s := fst (hrun ops) in
+    let s' := apply_op s (ORemove c id a) in
+    (forall c', c_list (cget s' c') =
+       if (c =? c')%nat then filter (fun h => negb (is_backend (s_heap s) id a h)) (c_list (cget s c'))
+       else c_list (cget s c')) /\
+    (forall hd, In hd (c_list (cget s c)) ->
+       (b_id (bk s hd), b_addr (bk s hd)) <> (id, a) -> In hd (c_list (cget s' c))) /\
+    (length (c_list (cget s c)) <= length (c_list (cget s' c)) + 1)%nat /\
+    s_heap s' = s_heap s /\ s_now s' = s_now s.
+Proof.
+  intros ops c id a s s'. unfold s'. cbn [apply_op].
+  split; [intros c'; apply (remove_lists s c id a c')|].
+  split; [intros hd H Hn; apply (remove_keeps_others s c id a hd H Hn)|].
+  split; [|split; reflexivity].
+  pose proof (remove_lists s c id a c) as RL. rewrite Nat.eqb_refl in RL. unfold lists in RL. rewrite RL.
+  destruct (hrun_ok ops) as [K _]. pose proof (remove_at_most_one s c id a K) as M.
+  unfold remove_backend in M. cbn [snd] in M. rewrite map_length in M.
+  pose proof (filter_split_length (is_backend (s_heap s) id a) (c_list (cget s c))) as FL.
+  lia.
+Qed.
+
+Example remove_backend_removes_exactly_that_one_nonvacuous :
+  (* blue (id 0) and green (id 1) on one address: removing blue leaves green, selected from then on;
+     removing by address alone used to leave the cluster empty *)
+  let ops := [ HOp (OPolicy 0 KRr MConn 0); HOp (OAdd 0 0 1 None None false); HOp (OAdd 0 1 1 None None false) ] in
+  let s := fst (hrun ops) in
+  let s' := apply_op s (ORemove 0 0 1) in
+  c_list (cget s 0) = [0%nat; 1%nat] /\ c_list (cget s' 0) = [1%nat] /\
+  picks (snd (select s' 0 None)) = [1%nat] /\
+  snd (remove_backend s 0 0 1) = [0] /\
+  (* a wrong id on that address removes nothing *)
+  c_list (cget (apply_op s (ORemove 0 2 1)) 0) = [0%nat; 1%nat].
+Proof. vm_compute. repeat split. Qed.
 
 Theorem verdict_touches_listed_backends_only :
   forall (s : state) (c : nat) (a : N) (v : bool) (cf : hcfg) (hd : nat),
@@ -480,11 +531,11 @@ Proof. vm_compute. repeat split. Qed.
 
 Example removed_backend_never_marked_nonvacuous :
   (* the probe outlives its backend; at the deadline nothing is marked, and the re-added backend is clean *)
-  let ops := hdemo ++ [HOp (ORemove 0 10); HOp (OAdvance 2); HPump] in
+  let ops := hdemo ++ [HOp (ORemove 0 0 10); HOp (OAdvance 2); HPump] in
   hc_inflight (snd (hrun ops)) = [] /\
   b_fails (hget (s_heap (fst (hrun ops))) 0) = 0 /\
   c_list (cget (fst (hrun ops)) 0) = [1%nat] /\
-  let ops2 := hdemo ++ [HOp (ORemove 0 10); HOp (OAdd 0 0 10 None None false); HOp (OAdvance 1); HPump] in
+  let ops2 := hdemo ++ [HOp (ORemove 0 0 10); HOp (OAdd 0 0 10 None None false); HOp (OAdvance 1); HPump] in
   c_list (cget (fst (hrun ops2)) 0) = [1%nat; 2%nat] /\
   b_fails (hget (s_heap (fst (hrun ops2))) 2) = 0.
 Proof. vm_compute. repeat split. Qed.
